@@ -393,15 +393,24 @@ def mirror_measures(ctx, kind, o0, o1, perm, n, cid, case):
                               {**case, "orig": v0, "reversed": v1}, cid)
 
 
-def _leading_eigenvector_unique(A):
+def _leading_eigenvector_unique(A, w=None):
     """An unconnected undirected graph whose largest adjacency eigenvalue is
     simple by a wide margin (one component dominates): the leading
-    eigenvector is then as well defined as on a connected graph."""
+    eigenvector is then as well defined as on a connected graph.  With node
+    weights the same must hold for the n.s.i. matrix (A + I) diag(w), whose
+    spectrum is that of the symmetric sqrt(w) (A + I) sqrt(w): a light
+    triangle and a heavy pair can tie there although they do not in A."""
     A = np.asarray(A, dtype=float)
     if len(A) < 3 or not np.array_equal(A, A.T):
         return False
     ev = np.linalg.eigvalsh(A)
-    return bool(ev[-1] - ev[-2] > 0.3 and ev[-1] + ev[0] > 0.3)
+    ok = bool(ev[-1] - ev[-2] > 0.3 and ev[-1] + ev[0] > 0.3)
+    if ok and w is not None:
+        q = np.sqrt(np.asarray(w, dtype=float))
+        evw = np.linalg.eigvalsh(q[:, None] * (A + np.eye(len(A))) * q[None, :])
+        ok = bool(evw[-1] - evw[-2] > 0.3 * max(1.0, float(np.mean(w)))
+                  and evw[-1] + evw[0] > 0.0)
+    return ok
 
 
 def build_case(ctx, kind, r, small):
@@ -484,7 +493,7 @@ def build_case(ctx, kind, r, small):
         return make, n, {"edges": np.argwhere(A).tolist(), "weights": w,
                          "key": G.canon_key(A), "have_attr": W is not None,
                          "connected": (G.connected(A) or
-                                       _leading_eigenvector_unique(A))
+                                       _leading_eigenvector_unique(A, w))
                          and not directed}
     if kind == "ResNetwork":
         n = int(r.integers(3, min(nmax, 8) + 1))
